@@ -237,6 +237,9 @@ def xlsx_models(orig, loaded, allow_g16=True):
                 if vb == "None" and f in huge_cols and isinstance(va, float) and va != va:
                     used_g = True
                     continue
+                if vb in ("inf", "-inf") and f in huge_cols and isinstance(va, float) and va == float(vb):
+                    used_g = True  # the same object column: an infinite entry stays the text it was written as
+                    continue
                 return None
             va, vb = float(va), float(vb)
             if not ((allow_g16 and same(g16(va), vb)) or same(va, vb)):
